@@ -4,7 +4,7 @@ LEVEL = "model_checking"
 
 
 def run(ctx):
-    sqlprop.run_sql_property(ctx, corpus=['cjoins', 'agg', 'big', 'noalias'], seeded=[], cfgs=sqlprop.PARALLEL, quick_n=40, thorough_n=1200,
+    sqlprop.run_sql_property(ctx, corpus=['cjoins', 'agg', 'big', 'noalias', 'limoff'], seeded=[], cfgs=sqlprop.PARALLEL, quick_n=40, thorough_n=1200,
         envs=[("t1", {"RAYON_NUM_THREADS": "1"}), ("t4", {"RAYON_NUM_THREADS": "4"}), ("t16", {"RAYON_NUM_THREADS": "16"})], cross=sqlprop.cross_success_consistency(),
         rule='Each corpus case is run with the input split into 1/2/3/7 batches, 1/2/8/16 partitions (multi-partition memory scans via a verification switch), Parquet row-group partitioning, under RAYON_NUM_THREADS 1/4/16 (separate processes); every outcome is judged by TLC against SqlSem.')
 
